@@ -59,3 +59,35 @@ Proof. vm_compute. repeat split; reflexivity. Qed.
 Print Assumptions c02_checker_sound. Print Assumptions c02_checker_complete. Print Assumptions c02_checker_returns.
 Print Assumptions c02_naive. Print Assumptions c02_naive_blocks. Print Assumptions c02_product_syndrome.
 Print Assumptions c02_logical_shift. Print Assumptions c02_mwpm_skeleton.
+
+
+(* ---- MWPM decoders, all lattice sizes (Decoders/PlanarMwpm.v, Decoders/ToricMwpm.v; C15's all-sizes path
+   theorems instantiate c02_mwpm_skeleton).  PO: the matching is an input; hypotheses on it are (i) perfect on the
+   decoder's node list of each lattice, (ii) planar only: the parity-fixing extra node is not mated with a defect
+   (the decoder's graph has no such edge).  Mates of the same lattice type follow from (i). ---- *)
+From QV Require Import Core.Code Generated.LatticeArith Lattice.Planar Lattice.Toric Decoders.MwpmRel Decoders.PlanarMwpm Decoders.ToricMwpm.
+Theorem c02_planar_mwpm : forall rows cols, (2 <= rows)%Z -> (2 <= cols)%Z -> forall (syn : bsf) (mp md : list (idx * idx)),
+  length syn = length (plaquette_indices rows cols) ->
+  Permutation (ends2 mp) (primal_nodes rows cols syn) -> Permutation (ends2 md) (dual_nodes rows cols syn) ->
+  extra_not_with_defect rows cols extra_primal mp -> extra_not_with_defect rows cols extra_dual md ->
+  exists r, mwpm_recovery rows cols (mp ++ md) = Some r /\ length r = (planar_n rows cols + planar_n rows cols)%nat /\
+            syndrome_of (stabs (planar_code rows cols)) r = syn.
+Proof. exact planar_mwpm_syndrome. Qed.
+Theorem c02_planar_mwpm_of_error : forall rows cols, (2 <= rows)%Z -> (2 <= cols)%Z -> forall (e : bsf) (mp md : list (idx * idx)),
+  let syn := syndrome_of (stabs (planar_code rows cols)) e in
+  Permutation (ends2 mp) (primal_nodes rows cols syn) -> Permutation (ends2 md) (dual_nodes rows cols syn) ->
+  extra_not_with_defect rows cols extra_primal mp -> extra_not_with_defect rows cols extra_dual md ->
+  exists r, mwpm_recovery rows cols (mp ++ md) = Some r /\ length r = (planar_n rows cols + planar_n rows cols)%nat /\
+            syndrome_of (stabs (planar_code rows cols)) r = syndrome_of (stabs (planar_code rows cols)) e.
+Proof. exact planar_mwpm_syndrome_of_error. Qed.
+Theorem c02_toric_mwpm : forall rows cols, (2 <= rows)%Z -> (2 <= cols)%Z -> forall (syn : bsf) (m0 m1 : list (tidx * tidx)),
+  length syn = length (tindices rows cols) ->
+  Permutation (ends2 m0) (lattice_defects rows cols 0%Z syn) -> Permutation (ends2 m1) (lattice_defects rows cols 1%Z syn) ->
+  exists r, toric_mwpm_recovery rows cols (m0 ++ m1) = Some r /\ length r = (toric_n rows cols + toric_n rows cols)%nat /\
+            syndrome_of (stabs (toric_code rows cols)) r = syn.
+Proof. exact toric_mwpm_syndrome. Qed.
+(* a perfect matching of a node list exists only if the list is even (toric: even parity per lattice) *)
+Theorem c02_perfect_even : forall (A : Type) (m : list (A * A)) l, Permutation (ends2 m) l -> Nat.even (length l) = true.
+Proof. exact @perfect_even. Qed.
+Print Assumptions c02_planar_mwpm. Print Assumptions c02_planar_mwpm_of_error. Print Assumptions c02_toric_mwpm.
+Print Assumptions c02_perfect_even.
